@@ -282,11 +282,13 @@ class PandasCheckBackend(BaseCheckBackend):
             cases = select_failure_cases[col].rename("failure_case").dropna()
             if len(cases) == 0:
                 continue
-            # a column label can be a tuple (MultiIndex columns): one label
-            # per failure case, not a sequence to broadcast
-            cases_frame = cases.to_frame().assign(
-                column=pd.Series([col] * len(cases), index=cases.index)
-            )
+            cases_frame = cases.to_frame()
+            if isinstance(col, tuple):
+                # the label of a MultiIndex column: one label per failure
+                # case, not a sequence to broadcast
+                cases_frame["column"] = [col] * len(cases_frame)
+            else:
+                cases_frame = cases_frame.assign(column=col)
             if isinstance(cases_frame.index, pd.MultiIndex):
                 # one "index" entry per row: the tuple of level values
                 cases_frame.index = cases_frame.index.to_flat_index()
